@@ -156,6 +156,22 @@ def sh_nonint(rng):
     return prog([assign("x", c(vals[0])), assign("y", c(0))], body), {}, "nonint-values"
 
 
+def sh_nonint_branch(rng):
+    """a conjunction / disjunction with an inequality over a non-integer valued finite variable guarding a branch with TWO
+    (or three) assignments: the flattened assignments share the condition"""
+    vals = rng.choice([[F(1, 2), F(3, 2)], [F(1, 2), F(3, 2), F(5, 2)], [F(-1, 2), F(1, 2), 1]])
+    alts = [(c(F(1, len(vals))), c(x)) for x in vals]
+    thr = rng.choice([1, 2, 0])
+    atom1 = ("atom", v("x"), rng.choice(["<", ">=", "<=", ">"]), c(thr))
+    atom2 = ("atom", v("f"), "==", c(1))
+    cond = (rng.choice(["and", "and", "or"]), atom1, atom2)
+    branch = [assign("y", add(v("y"), c(1))), assign("z", add(v("z"), c(2)))]
+    if rng.random() < 0.4:
+        branch.append(assign("y", add(v("y"), v("x"))))
+    body = [("assign", "x", ("choice", alts)), ("assign", "f", bern(rng.choice(PROBS))), ("if", [(cond, branch)], None)]
+    return prog([assign("x", c(vals[0])), assign("f", c(0)), assign("y", c(0)), assign("z", c(0))], body), {}, "nonint-values-shared-condition"
+
+
 def sh_goal_const(rng):
     """goals over loop-constant variables (k = 2; ... E(k*x))"""
     k = rng.choice([2, 3, -1, F(1, 2)])
@@ -296,7 +312,7 @@ def sh_two_dice(rng):
     return prog([assign("a", c(lo)), assign("b", c(lo)), assign("s", c(0)), assign("x", c(0))], body), {}, "two-dice-" + tag
 
 
-IN_SHAPES = [sh_two_dice, sh_const_in_cond, sh_nested_reassign, sh_nonint, sh_goal_const, sh_simult_branch, sh_cat_branch,
+IN_SHAPES = [sh_two_dice, sh_nonint_branch, sh_const_in_cond, sh_nested_reassign, sh_nonint, sh_goal_const, sh_simult_branch, sh_cat_branch,
              sh_multi_assign, sh_guard, sh_linear_cycle, sh_nl_acyclic, sh_cont_location, sh_many_values, sh_all_finite, sh_generic]
 
 
